@@ -108,6 +108,12 @@ CHECKS = {
     technique="TLA+ spec OvniSort (property layer SortedStablePermutation/PrefixUntouched/Idempotent + implementation layer: region automaton, look-back ring, find_destination, stable re-sort, ring rebuild) checked by TLC for refinement over all small streams; exported streams replayed through ovnisort / ovnisort -c / ovniemu and random larger runs validated by OvniSortTrace.tla",
     text="TLC explores every stream of <=6 events over 3-4 clock values with regions, jumbo events and several ring sizes (0.77M states quick, 9.8M thorough): Impl => Property, tightness of the look-back precondition, idempotence, four refuted negative configurations. ~7400 exported (stream, ring) pairs are materialised byte for byte and the tool's exit status, output order, size, untouched prefix, second run, check mode and emulator verdict compared with TLC's; random streams up to thousands of events are validated in the recorded direction.",
     note="Stability relies on glibc's merge-sort qsort; outside the preconditions the tool may leave the stream unsorted with exit 0 (Unspecified by the property); a second run may fail when the sorted stream no longer satisfies the look-back (file unchanged)."),
+
+ "C19": dict(
+    level="exploration", ref="DESIGN.md §4 C19 (incl. its stated limit)",
+    technique="TLA+ spec Decoder (stream decoder with C integer semantics scaled to 8 bits: guarded variant satisfies CursorInBounds/Progress/HeaderReadInBounds/ReadsWithinEvent, the unguarded arithmetic of the pinned commit is refuted) used to generate the structure-aware input family; all four tools run on it from the ASan+UBSan build with heap-buffer stream loading (hook H1) under timeout",
+    text="TLC proves the guarded decoder design within scaled integers (58k states quick, 23M thorough) and refutes each invariant on the arithmetic of the pinned commit; the transition/boundary classes of the model plus structure-aware mutations (size fields, flags, truncations, payload shapes per handler, unterminated strings, every metadata key x JSON type, random stage) give ~6300 inputs (quick) x 5 tool invocations; a case fails iff a tool dies by a signal, times out, a sanitizer reports or the exit status is not 0/1; failures are grouped by signature.",
+    note="A TLA+ model cannot establish memory safety of C: claimed is the decoder design within scaled integers plus absence of crashes/hangs/sanitizer reports on the generated family; ASan/UBSan are the observation channel."),
 }
 
 NA_REASON = "check not built yet in this round (planned, see DESIGN.md §4/§8); not claimed until its machinery exists"
@@ -153,7 +159,7 @@ def main():
         f.write("\n")
 
 
-HOOK_COMMITS = ["4347f13", "1b81d02", "79e435a"]
+HOOK_COMMITS = ["4347f13", "1b81d02", "79e435a", "49254e3"]
 
 if __name__ == "__main__":
     main()
